@@ -59,6 +59,7 @@ func run(c *lib.Ctx) {
 	c.Floor("c_feat_file-import", 500)
 	c.Floor("c_feat_multiline-token", 500)
 	c.Floor("c_feat_env", 500)
+	c.Floor("c_feat_env-changing-between-parses", 200)
 	c.Floor("a_evaluated", int64(c.Pick(250000, 3000000)))
 	c.Floor("a_errors", 1000)
 	c.Floor("a_accepted", 1000)
